@@ -38,6 +38,8 @@ type Directives struct {
 	Abstract map[string]bool // spec functions treated as uninterpreted (no definition) in this VC
 	Target  string // explicit target override: "pkgpath.Func" for external contracts
 	Timeout int
+	GuardSliceStores bool // ownership guard: every slice header this function stores into memory is fresh, empty, or an in-place extension of what was there
+	GuardErrors bool // every non-nil error obtained from a callee leads to a non-nil returned error
 	Uninterp bool // spec function: always an uninterpreted function (its Go body is only used when replaying)
 	Unfold  int // spec functions: recursion is inlined up to this depth (then uninterpreted)
 	Raw     []string
@@ -127,6 +129,10 @@ func parseDirectives(cg *ast.CommentGroup) *Directives {
 			d.Opaque = true
 		case "uninterpreted":
 			d.Uninterp = true
+		case "guard-errors":
+			d.GuardErrors = true
+		case "guard-slice-stores":
+			d.GuardSliceStores = true
 		case "split":
 			d.Split = true
 		case "nopanic":
